@@ -17,6 +17,12 @@ demo_tests = set(re.findall(r"test (\w+) \.\.\. FAILED", sec[2])) if len(sec) > 
 bad_suite = [l for l in bad_suite if not any(t in l for t in demo_tests) and "passed;" not in l or ("passed;" in l and not re.search(r"\d+ failed", l))]
 demo_with = "FAILED" in sec[2] if len(sec) > 2 else False
 demo_without = ("test result: ok" in sec[3] and "FAILED" not in sec[3]) if len(sec) > 3 else False
+# C20 seeds live in a non-default feature configuration: confirm.txt then carries a "custom confirmation" section run under it
+if "custom confirmation" in conf:
+    cust = conf[conf.index("custom confirmation"):]
+    parts = cust.split("-- ")
+    demo_with = any("expect failure" in p and "FAILED" in p for p in parts)
+    demo_without = any("without change" in p and "test result: ok" in p and "FAILED" not in p for p in parts)
 confirmed = demo_with and demo_without
 caught = sorted(set(re.findall(r"VIOLATION property=(C\d+)", ev)))
 harnesses = sorted(set(re.findall(r"counterexample: (?:harness|program) (\S+): ", ev)))
@@ -44,13 +50,42 @@ HISTORY = {
  "C17-m2": "MISSED at first (no skip+compact conflict twin); twins skip_and_* added",
  "C20-m1": "needs the real-scale harness c20h_encode_owned_20000 (thorough tier only): one write of > 16 KiB into Vec<u8> under no-std",
 }
+HISTORY_R2 = {
+ "C01-m1": "MISSED at first (no 64-element sequence: counts were <= 3 or 16384); c01q_count_boundary_* added (63/64/65 elements on Vec, slice, deque, str)",
+ "C01-m2": "MISSED at first (no element type that is zero-sized in memory but not on the wire); c01q_seq_of_zero_sized_elems_with_encoding added",
+ "C02-m1": "MISSED at first (same gap as C01-m2 on the decode side); c02q_zero_sized_elems_with_encoding added",
+ "C03-m1": "caught as-is by C04 (all strings for Compact<u64>); under C03 it was MISSED at first (no wide compact in C03's own list): c03q_compact_u64 added",
+ "C03-m2": "MISSED at first (no sequence/array of NonZero elements on the decode side); c03q_vec_nz_*, c03q_arr_nz_* added",
+ "C05-m1": "MISSED at first (the generator always wrote skip before index); variant with #[codec(index)] #[codec(skip)] in that order added (ESkipAttrLast)",
+ "C05-m2": "MISSED at first (no zero-sized-but-encoded field in a transparent struct); STransZstEnc / SZstEncMid with field type OneV added",
+ "C06-m2": "MISSED at first (no 64-element deque); c06q_deque_count_boundary_64 added",
+ "C07-m1": "MISSED at first (no array of one-byte non-u8 elements through using_encoded); c07q_ent_arr_optionbool / arr_compact_u8 / arr_bool added",
+ "C07-m2": "MISSED at first (ranges only over u16); c07q_ent_range_compact / range_incl_compact / range_opt added",
+ "C08-m1": "needs the real-scale harness c08h_unknown_length_multi_chunk_u32 (thorough tier only): > 16 KiB of wide elements from an unknown-length input",
+ "C08-m2": "caught as-is by C19 (hook forwarding); under C08 MISSED at first (stacks only used u32::MAX limits): c08q_counted_above_finite_depth_limit added",
+ "C09-m1": "MISSED at first (moderate counts <= 16384 only with 1-byte elements); c09q_slice_vec_wide_2p14 / unk_vec_wide_1500 / vec_arr_5000 added",
+ "C09-m2": "MISSED at first (map rejection paths ran under a 256 B allowance); c09q_map_63_one_entry_tight / set_63_two_entries_tight (64 B) added",
+ "C10-m1": "NOT CAUGHT and outside the engine: the defect only shows when an element decoder PANICS (Kani models panic as abort; unwinding is not executed). Stated limit of C10.",
+ "C11-m2": "MISSED at first (containers inside map entries timed out with droppable values); non-owning level-counting element Lvl with concrete limits added (c11q_map_value_level_lim*)",
+ "C13-m1": "caught by family member SZstEncMid (compact u16 field), which had been added after round 1 for another reason; earlier only STup4 (thorough tier) had a compact u16",
+ "C13-m2": "MISSED at first (only correctly marked types were instantiated); marker probe c13q_celprobe_* holds ANY type that carries ConstEncodedLen to it",
+ "C14-m1": "MISSED at first (see C01-m2); c14q_array_of_zero_sized_elems_with_encoding added",
+ "C16-m1": "MISSED at first (see C01-m2); c16q_pointer_to_zero_sized_with_encoding added",
+ "C16-m2": "thorough tier only: c16t_unsorted_slice_vs_map (added after this change arrived; two-entry map decode takes minutes)",
+ "C17-m1": "MISSED at first (no > 256-variant twin); twins variants_257_one_skipped_ok etc. added",
+ "C19-m2": "MISSED at first (no shared byte buffer through the counting wrapper); c19q_bytes_through_counted_* added",
+ "C20-m1": "caught by c08q_bytes_* which were added to C20's per-configuration runs after this change arrived",
+ "C20-m2": "caught by c12q_ml_box_* which were added to C20's per-configuration runs after this change arrived",
+}
+if os.environ.get("SEED_SUFFIX"):
+    HISTORY = HISTORY_R2
 dst.mkdir(parents=True, exist_ok=True)
 shutil.copy(src / "patch.diff", dst / "patch.diff")
 shutil.copy(src / "demo.rs", dst / "demo.rs")
 notes = (src / "notes.md").read_text() if (src / "notes.md").exists() else ""
 (dst / "notes.md").write_text(notes)
 meta = {
-    "property": ID, "id": "%s-m%s" % (ID, k), "source": "independent sub-agent given only the property text and a scratch worktree",
+    "property": ID, "id": "%s-m%s%s" % (ID, k, os.environ.get("SEED_SUFFIX", "")), "source": "independent sub-agent given only the property text and a scratch worktree",
     "needs_to_manifest": notes.strip().split("\n\n")[0][:1500],
     "confirmed_by_me": {"how": "tools/confirm_seed.sh in the scratch worktree: patch applies; full suite with the change (3 known-bad UI binaries ignored); demo with change; demo without change",
                         "demo_fails_with_change": demo_with, "demo_passes_without_change": demo_without, "suite_lines": suite[:40]},
